@@ -321,7 +321,8 @@ func (c *compiler) setup() {
 // used in setup()
 func (c *compiler) setupErrorStrings() {
 	createErrorString := func(msg string) *ir.Global {
-		error_string := c.mod.NewGlobalDef("", constant.NewCharArrayFromString(msg))
+		// the string is used as a C format string and therefore has to be null-terminated
+		error_string := c.mod.NewGlobalDef("", constant.NewCharArrayFromString(msg+"\x00"))
 		error_string.Linkage = enum.LinkageInternal
 		error_string.Visibility = enum.VisibilityDefault
 		error_string.Immutable = true
